@@ -37,7 +37,9 @@ func (node *tagMacroNode) Execute(ctx *ExecutionContext, writer TemplateWriter) 
 func (node *tagMacroNode) call(ctx *ExecutionContext, args ...*Value) (*Value, error) {
 	argsCtx := make(Context)
 
-	for k, v := range node.args {
+	// (defaults are evaluated in the order of the parameters, not in Go's map order)
+	for _, k := range node.argsOrder {
+		v := node.args[k]
 		if v == nil {
 			// User did not provided a default value
 			argsCtx[k] = nil
